@@ -244,7 +244,7 @@ func execC06Stdio(c C06Case) *Failure {
 		_ = expect
 	}
 	// the next well-formed request is served normally
-	ex := conn.Send([]byte(`{"jsonrpc":"2.0","id":"after","method":"ping"}`), `"after"`, Bound()*8)
+	ex := conn.Send([]byte(`{"jsonrpc":"2.0","id":"after","method":"ping"}`), `"after"`, Patience())
 	ok := false
 	for _, fr := range ex.Frames {
 		if id, has := rawIDOf(fr); has && id == `"after"` && isResponseFrame(fr) && !bytes.Contains(fr, []byte(`"error"`)) {
@@ -329,7 +329,7 @@ func execC06HTTP(c C06Case) *Failure {
 		select {
 		case pan := <-done:
 			return exchangeFromHTTP(rec.Code, rec.Header(), rec.Body.Bytes()), pan
-		case <-time.After(Bound() * 12):
+		case <-time.After(Patience()):
 			hung = true
 			return Exchange{Status: 599}, nil
 		}
@@ -365,7 +365,7 @@ func execC06HTTP(c C06Case) *Failure {
 			if pan != nil || ex.Status >= 300 {
 				return Failf("C06/stops-serving", "legacy: ping after abuse: status %d panic %v", ex.Status, pan)
 			}
-			deadline := time.Now().Add(Bound() * 8)
+			deadline := time.Now().Add(Patience())
 			for {
 				for _, e := range stream.Events()[n:] {
 					if rid, ok := rawIDOf([]byte(e.Data)); ok && rid == fmt.Sprintf("%q", id) && strings.Contains(e.Data, `"result"`) {
@@ -383,7 +383,7 @@ func execC06HTTP(c C06Case) *Failure {
 			return Failf("C06/panic/follow-up", "ping after abuse panicked: %v", pan)
 		}
 		if hung {
-			return TimingFailf("C06/stops-serving/hang", "kind=%d: ping after the abuse did not return within %v", c.Kind, Bound()*12)
+			return TimingFailf("C06/stops-serving/hang", "kind=%d: ping after the abuse did not return within %v", c.Kind, Patience())
 		}
 		if ex.Status != 200 || len(ex.Frames) != 1 || !bytes.Contains(ex.Frames[0], []byte(`"result"`)) {
 			return Failf("C06/stops-serving", "kind=%d: ping after abuse: status %d body %.200q", c.Kind, ex.Status, ex.Body)
@@ -481,7 +481,7 @@ func execC06HTTP(c C06Case) *Failure {
 			return Failf("C06/panic/"+strings.ToLower(verb), "%s: handler panicked: %v", where, pan)
 		}
 		if hung {
-			return TimingFailf("C06/handler-hangs", "%s: the handler did not return within %v", where, Bound()*12)
+			return TimingFailf("C06/handler-hangs", "%s: the handler did not return within %v", where, Patience())
 		}
 		for _, fr := range ex.Frames {
 			if _, fail := decodeFrame(fr, true); fail != nil {
@@ -514,7 +514,7 @@ func execC06HTTP(c C06Case) *Failure {
 	if !legacy && c.Kind == 0 {
 		ex, pan := record("POST", "/mcp", http.Header{"Content-Type": {"application/json"}, "Accept": {"application/json"}}, InitRequest("9", "2025-03-26"))
 		if hung {
-			return TimingFailf("C06/stops-serving/hang", "a new client's initialize after the abuse did not return within %v", Bound()*12)
+			return TimingFailf("C06/stops-serving/hang", "a new client's initialize after the abuse did not return within %v", Patience())
 		}
 		if pan != nil || ex.Status != 200 || ex.Header.Get("Mcp-Session-Id") == "" {
 			return Failf("C06/stops-serving", "a new client cannot initialize after the abuse: status %d panic %v", ex.Status, pan)
